@@ -79,7 +79,7 @@ func encCatalogue() (all, erroring []reflect.Type) {
 }
 
 var encCat, encErr = encCatalogue()
-var c03TypeOpts = gen.TypeOpts{MaxDepth: 4, Catalogue: encCat, Erroring: encErr}
+var c03TypeOpts = gen.TypeOpts{BothKeys: true, MaxDepth: 4, Catalogue: encCat, Erroring: encErr}
 var c03ValOpts = gen.ValOpts{BigSlices: true, MaxLen: 6, NaN: true, BadUTF8: true, BadNumber: true, IfaceTyped: true, Catalogue: encCat, NilChance: 5, BigStrings: true}
 
 type c03Case struct {
